@@ -1456,9 +1456,11 @@ func ruleGenerateSumOfFiner(w *World, r *Report, rule string) {
 			if !ok || (bo.Op != token.EQL && bo.Op != token.NEQ) || !inLoopWith(bo.Block()) {
 				return
 			}
-			if k, ok := constInt(bo.Y); ok && k == 0 {
-				if _, isPhi := bo.X.(*ssa.Phi); isPhi {
-					start = bo.X
+			for _, pr := range [][2]ssa.Value{{bo.X, bo.Y}, {bo.Y, bo.X}} {
+				if k, ok := constInt(pr[1]); ok && k == 0 {
+					if _, isPhi := pr[0].(*ssa.Phi); isPhi {
+						start = pr[0]
+					}
 				}
 			}
 		})
